@@ -9,6 +9,8 @@
 (*   step         a chunk's number is not the successor of the previous    *)
 (*                chunk's number in its direction                          *)
 (*   interleaved  a chunk of another message inside an unfinished message  *)
+(*   gap          the number is 2..17 ahead of the previous one: numbers    *)
+(*                are missing on the wire                                   *)
 (* An event of type "ABORT" (written by the harness when a send call       *)
 (* returned the context error after some chunks of its message) closes the *)
 (* unfinished message of its direction; it carries no sequence number.     *)
@@ -68,13 +70,17 @@ Step ==
          viaStale == AsIs /\ ps.set /\ (Num(e) = Succ(ps) \/ WrapOK(ps, Num(e)))
          v0 == IF Fresh(e) THEN "ok" ELSE verdict
          mainOK == contig /\ main
+         \* numbers are missing on the wire: the chunk is ahead of the successor of the previous one
+         \* (a send that failed before anything was written kept its number: Dev_SeqConsumedOnEarlyFailure)
+         ahead == pl.set /\ e.hi = pl.hi /\ e.lo > pl.lo + 1 /\ e.lo <= pl.lo + 17
          \* a chunk that does not continue the stream of the instance in use but the counter of the
          \* superseded instance belongs to that instance's stream (AsIs): it neither advances the
          \* main counter nor the message that is open on the main stream
          v == IF v0 # "ok" THEN v0
               ELSE IF mainOK THEN "ok"
               ELSE IF viaStale THEN "stale"
-              ELSE IF ~contig THEN "interleaved" ELSE "step"
+              ELSE IF ~contig THEN "interleaved"
+              ELSE IF ahead THEN "gap" ELSE "step"
      IN /\ verdict' = v
         /\ at' = IF v0 = "ok" /\ v # "ok" THEN (IF Fresh(e) THEN 1 ELSE cnt + 1) ELSE (IF Fresh(e) THEN 0 ELSE at)
         /\ cnt' = IF Fresh(e) THEN 1 ELSE cnt + 1
